@@ -3,6 +3,7 @@ import ModbusModel.Lemmas.Rtu
 import ModbusModel.Lemmas.Tcp
 import ModbusModel.Lemmas.Fault
 import ModbusModel.Lemmas.ClientFraming
+import ModbusModel.Lemmas.WriteFault
 /-
   C13 – Transport faults surface as transport errors, never as data.
 -/
@@ -117,6 +118,22 @@ theorem fault_mid_reply_rtu (c : Client) (req : Request) (t : Transport) (feeds 
   call_fault_mid_reply rtuClientFraming c req t feeds rest fault q frame hk hr htw htf hreads hfeed hq
     (by rw [hcut]; exact ⟨slave, pdu, res, rfl, hlen, hd⟩) henc hfne
 
+/-- **write_fault, every offset, every granularity, every pending pattern** (whole call, both
+    transports): the transport takes fewer bytes than the request frame has – in the pieces and
+    with the `Pending`s of the script `ps` – and then fails with `Err(kind)` or a zero-length
+    write: the call returns exactly that error as a transport error, and what reached the
+    transport is exactly the first `accepted ps` bytes of the frame -/
+theorem fault_mid_request (c : Client) (f : ClientFramed) (req : Request) (t : Transport)
+    (ps : List (Option Nat)) (fault : WriteEv) (kf : ErrKind) (rest : List WriteEv) (frame : Bytes)
+    (hf : c.framed = some f) (hw : f.wbuf = [])
+    (hk : fault.faultKind = some kf)
+    (ht : t.writes = pieceEvents ps ++ fault :: rest)
+    (hpos : ∀ n, some n ∈ ps → 0 < n) (hacc : accepted ps < frame.length)
+    (henc : clientEncode c.kind (stampedHdr c) req = .ok frame) :
+    (c.call req t none).1 = .done (.transport kf)
+    ∧ writtenBytes (c.call req t none).2.2.2 = frame.take (accepted ps) :=
+  call_write_fault c f req t ps fault kf rest frame hf hw hk ht hpos hacc henc
+
 -- non-vacuity: a reply cut after 9 of 11 bytes, then a read error / the end of the stream
 example :
     ((Client.attach .tcp).call (.readHoldingRegisters 0 1)
@@ -126,5 +143,13 @@ example :
     ((Client.attach .tcp).call (.readHoldingRegisters 0 1)
       { reads := [.data [0, 0, 0, 0, 0], .pending, .data [5, 255, 3, 2], .eof] } none).1
       = .done (.transport .other) := by decide +kernel
+
+-- … and a request of which 3 + 4 of 12 bytes are taken (a `Pending` in between) before a zero-length write
+example :
+    ((Client.attach .tcp).call (.readHoldingRegisters 0 1)
+      { writes := [.accept 3, .pending, .accept 4, .zero] } none).1
+      = .done (.transport .writeZero) := by decide +kernel
+example : pieceEvents [some 3, none, some 4] = [.accept 3, .pending, .accept 4] ∧ accepted [some 3, none, some 4] = 7 := by
+  decide
 
 end Modbus.Props.C13
